@@ -1,7 +1,7 @@
 (* C01 - a step never starts before everything it depends on has finished.
    This file holds nothing but the property theorems (closed by `exact`) and Print Assumptions.
    Model: Sched/Model.v.  Proofs: Sched/Proofs.v.  Tie to the code: tools/props/C01.py.
-   Premises: donech c = true (Schedule is given a done channel, as the agent always does), norepeat c.
+   Premise: norepeat c (no repeatPolicy step).  Since fix f9e55a3 no premise about the done channel is needed.
    Modelled away (trusted base): node teardown (log flush) does not fail - the code turns a finished node into
    failed when the flush fails, after dependents may already have looked. *)
 From Coq Require Import List.
@@ -13,7 +13,7 @@ From BD.Sched Require Import Model Proofs Replay ReplayProofs ProofsTrace Exampl
    every dependency d of i: at the instant i's command starts, d is finished, or failed with continueOn.failure, or
    skipped with continueOn.skipped; d has no live worker (not setting up, executing, deciding or waiting to
    retry); and d's command never starts again afterwards - it has finished its last attempt. *)
-Theorem C01_start_after_deps : forall c : cfg, donech c = true -> norepeat c ->
+Theorem C01_start_after_deps : forall c : cfg, norepeat c ->
   forall ls1 i ls2 s1 s2 s3,
     run c (init c) ls1 = Some s1 -> step c s1 (WExecStart i) = Some s2 -> run c s2 ls2 = Some s3 ->
     forall d, In d (deps (steps c i)) ->
@@ -24,7 +24,7 @@ Print Assumptions C01_start_after_deps.
 (* The same on the VISIBLE trace of every execution (what the harness observes of the real scheduler): when step i's
    Run is entered no dependency has an open Run (opn_after = the set of open Run calls), and no dependency's Run is
    entered again later. *)
-Theorem C01_on_every_trace : forall c : cfg, donech c = true -> norepeat c ->
+Theorem C01_on_every_trace : forall c : cfg, norepeat c ->
   forall ls1 i ls2 s, run c (init c) (ls1 ++ WExecStart i :: ls2) = Some s ->
   forall d, In d (deps (steps c i)) ->
     ~ In d (opn_after [] (vis ls1)) /\ ~ In (VStart d) (vis ls2).
@@ -32,7 +32,7 @@ Proof. exact C01_trace. Qed.
 Print Assumptions C01_on_every_trace.
 
 (* the statuses a dependent relies on never change again *)
-Theorem C01_permitting_status_is_stable : forall c : cfg, donech c = true -> norepeat c ->
+Theorem C01_permitting_status_is_stable : forall c : cfg, norepeat c ->
   forall s l s', Inv c s -> step c s l = Some s' -> forall d, okterm c s d -> okterm c s' d.
 Proof. exact step_okterm_stable. Qed.
 Print Assumptions C01_permitting_status_is_stable.
@@ -56,11 +56,13 @@ Example C01_nonvacuous :
                    pc s3 = LDone /\ deps (steps diamond 3) = [1; 2].
 Proof. exact (conj diamond_ok diamond_reaches_start). Qed.
 
-(* Why the premise donech = true: with done == nil the faithful model starts a dependent while its dependency's
-   second attempt is executing (the stale worker of the first attempt flips it to finished). *)
-Theorem C01_without_done_channel_refuted :
+(* History (fixed by f9e55a3): with done == nil the worker that had reset a retried node used to flip the relaunched,
+   running attempt to finished, so that a dependent started while its dependency executed (reproduced on the real
+   code, findings/C01-done-nil-stale-flip.json).  In the repaired model the same scenario - no done channel, first
+   attempt failed, second attempt executing - leaves the dependency running and refuses the dependent. *)
+Example C01_done_nil_flip_repaired :
   exists s, run flip_cfg (init flip_cfg) flip_exec = Some s /\
             norepeat flip_cfg /\ donech flip_cfg = false /\ maxActive flip_cfg = 1 /\
-            In 0 (deps (steps flip_cfg 1)) /\ ph (nd s 0) = PExec /\ ph (nd s 1) = PExec.
-Proof. exact stale_flip_refuted. Qed.
-Print Assumptions C01_without_done_channel_refuted.
+            In 0 (deps (steps flip_cfg 1)) /\ ph (nd s 0) = PExec /\ st (nd s 0) = NRunning /\
+            step flip_cfg s (LCommit 1) = None.
+Proof. exact stale_flip_repaired. Qed.
